@@ -107,14 +107,30 @@ func (f *impFn) assigned(nodes ...ast.Node) []string {
 				if exprText(s.Fun) == "copy" && len(s.Args) > 0 {
 					set[rootOf(s.Args[0])] = true
 				}
+				if f.p.tg.digest {
+					f.digestAssigned(s, set)
+				}
 				if se, ok := s.Fun.(*ast.SelectorExpr); ok && (se.Sel.Name == "Write" || se.Sel.Name == "Reset") {
 					set[rootOf(se.X)] = true
 				}
 				if se, ok := s.Fun.(*ast.SelectorExpr); ok {
 					if id, ok := se.X.(*ast.Ident); ok {
-						if t := f.lookup(id.Name); t != nil && (t.k == "elem" || (t.k == "bigint" && se.Sel.Name == "Neg")) {
+						if t := f.lookup(id.Name); t != nil && (t.k == "elem" || (t.k == "bigint" && (se.Sel.Name == "Neg" || se.Sel.Name == "SetBytes" || se.Sel.Name == "Mod" || se.Sel.Name == "SetString" || (se.Sel.Name == "Set" && f.p.tg.grp != "")))) {
 							set[id.Name] = true
 						}
+					}
+					if ix, ok := se.X.(*ast.IndexExpr); ok { // xs[i].M(…) on a slice of elements: xs is updated
+						if id, ok := ix.X.(*ast.Ident); ok {
+							if t := f.lookup(id.Name); t != nil && t.k == "slice" && t.elem.k == "elem" {
+								set[id.Name] = true
+							}
+						}
+					}
+					if r := callRecvRoot(s); r != "" && f.isGrpVar(r) {
+						set[r] = true
+					}
+					if r := callRecvRoot(s); r != "" && f.lookup(r) != nil && f.lookup(r).k == "bigpair" && se.Sel.Name == "Neg" {
+						set[r] = true
 					}
 				}
 			}
@@ -282,12 +298,40 @@ func (f *impFn) lhsType(lhs ast.Expr, c *ictx) *ity {
 // a simple statement as `let` lines
 func (f *impFn) simple(s ast.Stmt, prev ast.Stmt, c *ictx) []string {
 	p := f.p
+	f.inLoopNow = c.inLoop
+	if p.tg.digest {
+		if lines, ok := f.digestSimple(s, c); ok {
+			return lines
+		}
+	}
 	switch v := s.(type) {
 	case *ast.AssignStmt:
 		if v.Tok != token.DEFINE && v.Tok != token.ASSIGN {
 			p.die(s, "assignment operator %s", v.Tok)
 		}
 		if len(v.Lhs) == 2 && len(v.Rhs) == 1 {
+			if call, ok := v.Rhs[0].(*ast.CallExpr); ok && p.tg.mode == "h2f" && len(call.Args) == 2 && v.Tok == token.DEFINE {
+				// `_, ok := x.SetString(s, 0)` on a scratch big.Int: PARAMETER bigSetString (value, ok); x is unspecified when !ok
+				if se, isSel := call.Fun.(*ast.SelectorExpr); isSel && se.Sel.Name == "SetString" {
+					if id, isId := se.X.(*ast.Ident); isId && f.lookup(id.Name) != nil && f.lookup(id.Name).k == "bigint" {
+						l0, ok0 := v.Lhs[0].(*ast.Ident)
+						l1, ok1 := v.Lhs[1].(*ast.Ident)
+						if !f.isFresh(id.Name) || f.bigDead[id.Name] {
+							p.die(s, "%s.SetString(…) on a big.Int that is not a live scratch object", id.Name)
+						}
+						if !ok0 || !ok1 || l0.Name != "_" || l1.Name == "_" || exprText(call.Args[1]) != "0" {
+							p.die(s, "SetString form (only `_, ok := x.SetString(s, 0)`)")
+						}
+						ss, st := f.expr(call.Args[0], tyString, c)
+						if st.k != "string" {
+							p.die(s, "SetString argument type")
+						}
+						f.declare(s, l1.Name, tyBool)
+						delete(f.bigUninit, id.Name)
+						return []string{"let (" + lname(id.Name) + ", " + lname(l1.Name) + ") := bigSetString " + parenImp(ss)}
+					}
+				}
+			}
 			names := func(ts ...*ity) []string {
 				var ns []string
 				for i, l := range v.Lhs {
@@ -338,6 +382,23 @@ func (f *impFn) simple(s ast.Stmt, prev ast.Stmt, c *ictx) []string {
 						"let " + lname(root) + " := " + nv}
 				}
 			}
+			if call, ok := v.Rhs[0].(*ast.CallExpr); ok && p.tg.mode == "h2f" && exprText(call.Fun) == "hash.ExpandMsgXmd" && len(call.Args) == 3 && f.lookup("hash") == nil {
+				// the already-translated field/hash.ExpandMsgXmd: an explicit PARAMETER of the def
+				if p.imports["hash"] != "github.com/consensys/gnark-crypto/field/hash" {
+					p.die(s, "package `hash` is %q, not gnark-crypto/field/hash", p.imports["hash"])
+				}
+				var as []string
+				for i, a := range call.Args {
+					w := []*ity{tyBytes, tyBytes, tyInt}[i]
+					es, et := f.sliceVal(a, w, c)
+					if !et.eq(w) {
+						p.die(a, "argument %d of hash.ExpandMsgXmd: %v expected, %v given", i, w, et)
+					}
+					as = append(as, parenImp(es))
+				}
+				ns := names(tyBytes, tyErr)
+				return []string{"let (" + ns[0] + ", " + ns[1] + ") := ExpandMsgXmd " + strings.Join(as, " ")}
+			}
 			p.die(s, "tuple assignment outside the subset")
 		}
 		if len(v.Lhs) != 1 || len(v.Rhs) != 1 {
@@ -353,12 +414,36 @@ func (f *impFn) simple(s ast.Stmt, prev ast.Stmt, c *ictx) []string {
 			if !ok {
 				p.die(s, ":= to a non-variable")
 			}
+			if call, ok := v.Rhs[0].(*ast.CallExpr); ok && exprText(call.Fun) == "pool.BigInt.Get" && len(call.Args) == 0 && p.tg.mode == "h2f" {
+				if p.imports["pool"] != "github.com/consensys/gnark-crypto/field/pool" {
+					p.die(s, "package `pool` is %q, not gnark-crypto/field/pool", p.imports["pool"])
+				}
+				f.checkBigScratch(v, id.Name)
+				f.declare(s, id.Name, &ity{k: "bigint"})
+				if f.bigFresh == nil {
+					f.bigFresh = map[string]bool{}
+				}
+				if f.bigUninit == nil {
+					f.bigUninit = map[string]bool{}
+				}
+				if f.bigScratch == nil {
+					f.bigScratch = map[string]bool{}
+				}
+				f.bigScratch[id.Name] = true
+				f.bigFresh[id.Name], f.bigUninit[id.Name] = true, true
+				return []string{"let " + lname(id.Name) + " : Int := 0  -- pool.BigInt.Get(): a fresh scratch object (contents unspecified: checked to be set before it is read, not to escape, not to be used after Put)"}
+			}
 			es, et := f.expr(v.Rhs[0], nil, c)
 			f.declare(s, id.Name, et)
 			if _, isLit := v.Rhs[0].(*ast.BasicLit); isLit || et.k == "struct" {
 				return []string{"let " + lname(id.Name) + " : " + p.lty(et, true) + " := " + es}
 			}
 			return []string{"let " + lname(id.Name) + " := " + es}
+		}
+		if p.tg.ext && v.Tok == token.ASSIGN {
+			if lines, ok := f.frAssign(v, c); ok {
+				return lines
+			}
 		}
 		if ix, ok := v.Lhs[0].(*ast.IndexExpr); ok && v.Tok == token.ASSIGN {
 			if id, ok := ix.X.(*ast.Ident); ok {
@@ -418,6 +503,33 @@ func (f *impFn) simple(s ast.Stmt, prev ast.Stmt, c *ictx) []string {
 		if !ok {
 			p.die(s, "expression statement")
 		}
+		if f.p.tg.grp != "" {
+			if lines, ok := f.grpStmt(call, c); ok {
+				return lines
+			}
+		}
+		if f.p.tg.ext {
+			// k[i].Neg(&k[i]) on the pair returned by ecc.SplitScalar (a value owned by the function)
+			if se, ok := call.Fun.(*ast.SelectorExpr); ok && se.Sel.Name == "Neg" && len(call.Args) == 1 {
+				if ix, ok := se.X.(*ast.IndexExpr); ok {
+					if id, ok := ix.X.(*ast.Ident); ok && f.lookup(id.Name) != nil && f.lookup(id.Name).k == "bigpair" {
+						u, ok := call.Args[0].(*ast.UnaryExpr)
+						if !ok || u.Op != token.AND || exprText(u.X) != exprText(ix) {
+							p.die(s, "Neg on the split pair (only k[i].Neg(&k[i]))")
+						}
+						n := litInt(ix.Index)
+						if n == nil || (n.Int64() != 0 && n.Int64() != 1) {
+							p.die(s, "index of the split pair")
+						}
+						k := lname(id.Name)
+						if n.Int64() == 0 {
+							return []string{"let " + k + " := (-(" + k + ".1), " + k + ".2)"}
+						}
+						return []string{"let " + k + " := (" + k + ".1, -(" + k + ".2))"}
+					}
+				}
+			}
+		}
 		if se, ok := call.Fun.(*ast.SelectorExpr); ok {
 			if id, ok := se.X.(*ast.Ident); ok {
 				if t := f.lookup(id.Name); t != nil && t.k == "elem" {
@@ -445,12 +557,53 @@ func (f *impFn) simple(s ast.Stmt, prev ast.Stmt, c *ictx) []string {
 						val = "mul " + arg(call.Args[0]) + " " + arg(call.Args[1])
 					case se.Sel.Name == "Inverse" && len(call.Args) == 1:
 						val = "inv " + arg(call.Args[0])
+					case se.Sel.Name == "SetZero" && len(call.Args) == 0 && p.tg.mode == "h2f":
+						val = "zeroF"
+					case se.Sel.Name == "SetUint64" && len(call.Args) == 1 && p.tg.mode == "h2f":
+						// PARAMETER setUint64F
+						us, ut := f.expr(call.Args[0], tyU64, c)
+						if ut.k != "uint64" {
+							p.die(s, "SetUint64 argument type %v", ut)
+						}
+						val = "setUint64F " + parenImp(us)
+					case se.Sel.Name == "Neg" && len(call.Args) == 1 && p.tg.mode == "h2f":
+						val = "negF " + arg(call.Args[0]) // PARAMETER negF
+					case p.tg.mode == "h2f" && p.elemMeth[se.Sel.Name] != nil && len(call.Args) == len(p.elemMeth[se.Sel.Name].params):
+						// a method `func (z *Element) M(…) *Element` of this target translated before
+						_, margs := h2fParams(se.Sel.Name)
+						val = se.Sel.Name + margs + " " + lname(id.Name)
+						for i, a := range call.Args {
+							if p.elemMeth[se.Sel.Name].params[i].k != "bigint" {
+								p.die(a, "argument %d of %s", i, se.Sel.Name)
+							}
+							val += " " + parenImp(f.h2fBigArg(a, c))
+						}
+					case se.Sel.Name == "setBigInt" && len(call.Args) == 1 && p.tg.mode == "h2f":
+						// the limb-level primitive (assumes 0 ≤ v < q): PARAMETER setBigIntF
+						if p.funcs["setBigInt"] == nil || p.funcs["setBigInt"].Recv == nil {
+							p.die(s, "method setBigInt not found")
+						}
+						val = "setBigIntF " + parenImp(f.h2fBigArg(call.Args[0], c))
 					default:
 						p.die(s, "element method %s outside the subset", se.Sel.Name)
 					}
 					return []string{"let " + lname(id.Name) + " := " + val}
 				}
 				if t := f.lookup(id.Name); t != nil && t.k == "bigint" {
+					if se.Sel.Name == "Set" && len(call.Args) == 1 && f.bigLocal[id.Name] {
+						as, at := f.bigArg(call.Args[0], c)
+						if at.k != "bigint" {
+							p.die(s, "Set argument")
+						}
+						return []string{"let " + lname(id.Name) + " := " + as}
+					}
+					if se.Sel.Name == "Neg" && len(call.Args) == 1 && f.bigLocal[id.Name] {
+						as, at := f.bigArg(call.Args[0], c)
+						if at.k != "bigint" {
+							p.die(s, "Neg argument")
+						}
+						return []string{"let " + lname(id.Name) + " := -" + parenImp(as)}
+					}
 					if se.Sel.Name == "Neg" && len(call.Args) == 1 {
 						if !f.bigFresh[id.Name] {
 							p.die(s, "%s.Neg(…) on a big.Int that is not known to be a fresh object (could be the caller's)", id.Name)
@@ -462,9 +615,87 @@ func (f *impFn) simple(s ast.Stmt, prev ast.Stmt, c *ictx) []string {
 						delete(f.bigUninit, id.Name)
 						return []string{"let " + lname(id.Name) + " := -" + parenImp(as)}
 					}
+					if (se.Sel.Name == "SetBytes" || se.Sel.Name == "Mod") && p.tg.mode == "h2f" {
+						if !f.isFresh(id.Name) {
+							p.die(s, "%s.%s(…) on a big.Int that is not known to be a fresh object (could be the caller's)", id.Name, se.Sel.Name)
+						}
+						if f.bigDead[id.Name] {
+							p.die(s, "%s is used after pool.BigInt.Put(%s)", id.Name, id.Name)
+						}
+						var val string
+						if se.Sel.Name == "Mod" && len(call.Args) == 2 {
+							// x.Mod(a, m): Euclidean remainder a mod m, 0 ≤ result < |m| (m = 0 panics in Go: not modelled)
+							val = "bigMod " + parenImp(f.h2fBigArg(call.Args[0], c)) + " " + parenImp(f.h2fBigArg(call.Args[1], c))
+						} else if sl, ok := call.Args[0].(*ast.SliceExpr); ok && se.Sel.Name == "SetBytes" && len(call.Args) == 1 && sl.Low != nil && sl.High != nil && sl.Max == nil {
+							// x.SetBytes(s[a:b]): the window is only read (SetBytes copies); bounds out of range panic in Go: not modelled
+							xs, xt := f.sliceVal(sl.X, tyBytes, c)
+							ls, lt := f.expr(sl.Low, tyInt, c)
+							hs, ht := f.expr(sl.High, tyInt, c)
+							if !xt.eq(tyBytes) || lt.k != "int" || ht.k != "int" {
+								p.die(s, "SetBytes argument types")
+							}
+							val = "bigSetBytes (sliceOf " + parenImp(xs) + " " + parenImp(ls) + " " + parenImp(hs) + ")"
+						} else if se.Sel.Name == "SetBytes" && len(call.Args) == 1 {
+							xs, xt := f.sliceVal(call.Args[0], tyBytes, c)
+							if !xt.eq(tyBytes) {
+								p.die(s, "SetBytes argument type")
+							}
+							val = "bigSetBytes " + parenImp(xs)
+						} else {
+							p.die(s, "big.Int method %s form", se.Sel.Name)
+						}
+						delete(f.bigUninit, id.Name)
+						return []string{"let " + lname(id.Name) + " := " + val}
+					}
 					p.die(s, "big.Int method %s as a statement", se.Sel.Name)
 				}
 			}
+		}
+		if se, ok := call.Fun.(*ast.SelectorExpr); ok && p.tg.mode == "h2f" {
+			if ix, ok := se.X.(*ast.IndexExpr); ok {
+				// xs[i].M(args) with M a method `func (z *Element) M(…) *Element` of this target translated before: xs[i] gets M's result
+				id, isId := ix.X.(*ast.Ident)
+				sig := p.elemMeth[se.Sel.Name]
+				if !isId || sig == nil {
+					p.die(s, "method call on an indexed element outside the subset")
+				}
+				t := f.lookup(id.Name)
+				if t == nil || t.k != "slice" || t.elem.k != "elem" {
+					p.die(s, "indexed method call on %v", t)
+				}
+				f.checkFreshLocal(s, id.Name)
+				js, jt := f.expr(ix.Index, tyInt, c)
+				if jt.k != "int" || len(call.Args) != len(sig.params) {
+					p.die(s, "indexed method call: index type / arity")
+				}
+				_, margs := h2fParams(se.Sel.Name)
+				out := se.Sel.Name + margs + " (index " + lname(id.Name) + " " + parenImp(js) + ")"
+				for i, a := range call.Args {
+					var as string
+					if sig.params[i].k == "bigint" {
+						as = f.h2fBigArg(a, c)
+					} else {
+						var at *ity
+						as, at = f.expr(a, sig.params[i], c)
+						if !at.eq(sig.params[i]) {
+							p.die(a, "argument %d of %s", i, se.Sel.Name)
+						}
+					}
+					out += " " + parenImp(as)
+				}
+				return []string{"let " + lname(id.Name) + " := setAt " + lname(id.Name) + " " + parenImp(js) + " (" + out + ")"}
+			}
+		}
+		if exprText(call.Fun) == "pool.BigInt.Put" && len(call.Args) == 1 && p.tg.mode == "h2f" {
+			id, ok := call.Args[0].(*ast.Ident)
+			if !ok || !f.isFresh(id.Name) {
+				p.die(s, "pool.BigInt.Put of something that is not a scratch object obtained by Get in this function")
+			}
+			if f.bigDead == nil {
+				f.bigDead = map[string]bool{}
+			}
+			f.bigDead[id.Name] = true
+			return []string{"-- pool.BigInt.Put(" + id.Name + "): memory pool only (" + id.Name + " is not used afterwards: checked)"}
 		}
 		if id, ok := call.Fun.(*ast.Ident); ok {
 			if t := f.lookup(id.Name); t != nil && t.k == "events" {
@@ -570,6 +801,33 @@ func (f *impFn) simple(s ast.Stmt, prev ast.Stmt, c *ictx) []string {
 		p.die(s, "call statement %s outside the subset", exprText(call.Fun))
 	case *ast.DeclStmt:
 		gd, ok := v.Decl.(*ast.GenDecl)
+		if ok && gd.Tok == token.CONST && p.tg.mode == "h2f" {
+			// local `const X = e`: an (untyped) integer constant expression, exact arithmetic
+			var out []string
+			for _, sp := range gd.Specs {
+				vs := sp.(*ast.ValueSpec)
+				if vs.Type != nil || len(vs.Values) != len(vs.Names) {
+					p.die(s, "const declaration form (only `const X = e`)")
+				}
+				for i, n := range vs.Names {
+					es, et := f.expr(vs.Values[i], tyInt, c)
+					if et.k != "int" {
+						p.die(s, "const %s: integer expression expected", n.Name)
+					}
+					f.declare(s, n.Name, tyInt)
+					out = append(out, "let "+lname(n.Name)+" : Int := "+es)
+				}
+			}
+			return out
+		}
+		if ok && gd.Tok == token.CONST && p.tg.grp != "" && len(gd.Specs) == 1 {
+			// `const n = bits.UintSize`: 64 (64-bit platforms, as for uint); an untyped integer constant used as an int
+			vs := gd.Specs[0].(*ast.ValueSpec)
+			if vs.Type == nil && len(vs.Names) == 1 && len(vs.Values) == 1 && exprText(vs.Values[0]) == "bits.UintSize" {
+				f.declare(s, vs.Names[0].Name, tyInt)
+				return []string{"let " + lname(vs.Names[0].Name) + " : Int := 64  -- bits.UintSize on a 64-bit platform"}
+			}
+		}
 		if !ok || gd.Tok != token.VAR {
 			p.die(s, "declaration")
 		}
@@ -581,6 +839,15 @@ func (f *impFn) simple(s ast.Stmt, prev ast.Stmt, c *ictx) []string {
 			}
 			t := p.goType(vs.Type)
 			for _, n := range vs.Names {
+				if t.k == "bigint" { // `var x big.Int`: the function's own object (value 0), may be mutated
+					if _, isPtr := vs.Type.(*ast.StarExpr); isPtr {
+						p.die(s, "var of type *big.Int")
+					}
+					if f.bigLocal == nil {
+						f.bigLocal = map[string]bool{}
+					}
+					f.bigLocal[n.Name] = true
+				}
 				f.declare(s, n.Name, t)
 				out = append(out, "let "+lname(n.Name)+" : "+p.lty(t, true)+" := "+p.zero(t))
 			}
@@ -643,6 +910,10 @@ func (f *impFn) seq(list []ast.Stmt, k *kont, c *ictx, ind string, prev ast.Stmt
 		}
 		var vals []string
 		for i, r := range v.Results {
+			if id, ok := r.(*ast.Ident); ok && f.results[i].k == "ptr" && id.Name == f.recv && f.recvTy.eq(f.results[i].elem) {
+				vals = append(vals, "some "+lname(f.recv)) // the returned pointer is the receiver
+				continue
+			}
 			es, et := f.expr(r, f.results[i], c)
 			if !et.eq(f.results[i]) {
 				p.die(r, "return value %d: %v expected, %v given", i, f.results[i], et)
@@ -1022,6 +1293,7 @@ func (f *impFn) rangeStmt(v *ast.RangeStmt, rest []ast.Stmt, k *kont, c *ictx, i
 		f.name, f.lineNo(v), map[bool]string{true: keyName, false: "_, " + valName}[byIndex], exprText(v.X),
 		name, whParams(*u), strings.Join(append([]string{""}, roParams...), " "), sig, resTy, pats, base, pat, pats, body)
 	f.helpers = append(f.helpers, def)
+	f.p.loopInfos = append(f.p.loopInfos, impLoopInfo{name: name, kind: "range", ro: lnames(ro), S: lnames(S)})
 	c.uses.or(*u)
 	f.popTo(depth0)
 	over := parenImp(xs)
@@ -1058,7 +1330,15 @@ func (f *impFn) countingFuel(v *ast.ForStmt, c *ictx) string {
 		d, ok := s.(*ast.IncDecStmt)
 		return ok && ((d.Tok == token.INC && !down) || (d.Tok == token.DEC && down)) && exprText(d.X) == id.Name
 	}
-	if v.Post != nil && isInc(v.Post) {
+	if as, ok := v.Post.(*ast.AssignStmt); ok && f.p.tg.digest && !down && as.Tok == token.ADD_ASSIGN && len(as.Lhs) == 1 && exprText(as.Lhs[0]) == id.Name {
+		// `i += K`, K not assigned in the loop: N - i iterations suffice whenever K ≥ 1 (K ≤ 0: the Go loop does not terminate)
+		incs++
+		for _, a := range f.assigned(v.Body) {
+			for _, b := range f.freeVars(as.Rhs[0]) {
+				other = other || a == b
+			}
+		}
+	} else if v.Post != nil && isInc(v.Post) {
 		incs++
 	} else if v.Post != nil {
 		for _, a := range f.assigned(v.Post) {
@@ -1193,7 +1473,11 @@ func (f *impFn) forStmt(v *ast.ForStmt, rest []ast.Stmt, k *kont, c *ictx, ind s
 		return post + name + hole + " fuel_ " + strings.Join(lnames(S), " ")
 	}
 	f.push()
+	uninit0 := copySet(f.bigUninit)
 	body := f.seq(v.Body.List, nil, cc, "      ", nil, false)
+	if len(uninit0) > 0 { // the body may run zero times: what was unset before the loop is still unset after it
+		f.bigUninit = uninit0
+	}
 	f.restore(ss, sg)
 	roArgs := ""
 	var roParams []string
@@ -1228,6 +1512,15 @@ func (f *impFn) forStmt(v *ast.ForStmt, rest []ast.Stmt, k *kont, c *ictx, ind s
 	def := fmt.Sprintf("/-- %s, line %d: `%s { … }`; the first argument bounds the number of iterations -/\ndef %s%s%s : %s → %s\n  | 0%s => %s\n  | fuel_ + 1%s =>\n    if %s then\n%s\n    else\n    %s\n",
 		f.name, f.lineNo(v), strings.TrimSpace(condTxt), name, whParams(*u), strings.Join(append([]string{""}, roParams...), " "), sig, resTy, pats, exit, pats, cond, body, exit)
 	f.helpers = append(f.helpers, def)
+	{
+		var ron []string
+		for _, x := range ro {
+			if t := f.lookup(x); t != nil && t.k != "waitgroup" {
+				ron = append(ron, lname(x))
+			}
+		}
+		f.p.loopInfos = append(f.p.loopInfos, impLoopInfo{name: name, kind: "for", ro: ron, S: lnames(S)})
+	}
 	c.uses.or(*u)
 	callTxt := name + whArgs(*u) + roArgs + " " + fuel + " " + strings.Join(lnames(S), " ")
 	// the loop variable of the init statement goes out of scope; the other state variables keep their new values
@@ -1315,6 +1608,9 @@ func (f *impFn) checkFreshLocal(at ast.Node, x string) {
 			}
 			for _, r := range s.Rhs {
 				if strip(r) == x {
+					if f.p.tg.digest && !f.inLoopNow && s.Pos() > at.End() {
+						continue // handed on after its last in-place write (any later in-place write is checked against this alias again)
+					}
 					f.p.die(s, "%s is written in place and aliased here", x)
 				}
 			}
@@ -1335,4 +1631,69 @@ func (f *impFn) checkFreshLocal(at ast.Node, x string) {
 		}
 		return true
 	})
+}
+
+// a *big.Int argument: a pointer variable, or `&x` of a local big.Int value
+func (f *impFn) bigArg(a ast.Expr, c *ictx) (string, *ity) {
+	if u, ok := a.(*ast.UnaryExpr); ok && u.Op == token.AND {
+		if id, ok := u.X.(*ast.Ident); ok && f.bigLocal[id.Name] {
+			return f.expr(id, nil, c)
+		}
+		f.p.die(a, "& of something that is not a local big.Int value")
+	}
+	return f.expr(a, nil, c)
+}
+
+// `X = X.SetBigInt(&K).Bits()` with X an fr.Element variable or an element of a local array of them: X receives the words of the
+// non-Montgomery representative of K mod r (parameter `frBits`; SetBigInt overwrites its receiver, so the old value of X is not read)
+func (f *impFn) frAssign(v *ast.AssignStmt, c *ictx) ([]string, bool) {
+	p := f.p
+	bits, ok := v.Rhs[0].(*ast.CallExpr)
+	if !ok {
+		return nil, false
+	}
+	se, ok := bits.Fun.(*ast.SelectorExpr)
+	if !ok || se.Sel.Name != "Bits" || len(bits.Args) != 0 {
+		return nil, false
+	}
+	set, ok := se.X.(*ast.CallExpr)
+	if !ok {
+		return nil, false
+	}
+	se2, ok := set.Fun.(*ast.SelectorExpr)
+	if !ok || se2.Sel.Name != "SetBigInt" || len(set.Args) != 1 {
+		return nil, false
+	}
+	if exprText(se2.X) != exprText(v.Lhs[0]) {
+		p.die(v, "X = Y.SetBigInt(…).Bits() with X ≠ Y (Y would keep the Montgomery form)")
+	}
+	var ks string
+	var kt *ity
+	if u, ok := set.Args[0].(*ast.UnaryExpr); ok && u.Op == token.AND {
+		if id, ok := u.X.(*ast.Ident); ok && f.bigLocal[id.Name] {
+			ks, kt = f.expr(id, nil, c)
+		} else if _, ok := u.X.(*ast.IndexExpr); ok {
+			ks, kt = f.expr(u.X, nil, c)
+		}
+	} else {
+		ks, kt = f.expr(set.Args[0], nil, c)
+	}
+	if kt == nil || kt.k != "bigint" {
+		p.die(v, "SetBigInt argument")
+	}
+	val := "frBits " + parenImp(ks)
+	switch l := v.Lhs[0].(type) {
+	case *ast.Ident:
+		if t := f.lookup(l.Name); t != nil && t.k == "frel" {
+			return []string{"let " + lname(l.Name) + " := " + val}, true
+		}
+	case *ast.IndexExpr:
+		if id, ok := l.X.(*ast.Ident); ok {
+			if t := f.lookup(id.Name); t != nil && t.k == "array" && t.elem.k == "frel" {
+				return []string{"let " + lname(id.Name) + " := arrSet " + lname(id.Name) + " " + parenImp(f.natIndex(l.Index, c)) + " " + parenImp(val)}, true
+			}
+		}
+	}
+	p.die(v, "fr.Element assignment target")
+	return nil, false
 }
